@@ -14,6 +14,8 @@ C04 (session 3) — theorems about the parts of the model added for the input-sp
   the result; the key `(N, NW, Kmax)` that forgets `interp_from` does not (counterexample).
 -/
 import Nitime.Props.C04
+import Nitime.Lemmas.C04Sess
+import Nitime.Generated.AnalyzerFs
 
 namespace Nitime.C04.Props
 open Finset Nitime.Num Nitime.Spectral Nitime.C04 Nitime.Generated.SpecIdx Nitime.Generated.SpecWrites
@@ -379,5 +381,54 @@ example : skRun (1 : ℝ) 4 4 2 false (fun _ _ => (1 : ℂ)) [.csd "default" tru
 example : ∑ k ∈ range (outLen 2 false), periodogramSk (1 : ℝ) 2 2 false true (fun _ => (1 : ℂ)) k * ((1 : ℝ) / (2 : ℕ))
     = (∑ k ∈ range 2, Complex.normSq ((fun _ => (1 : ℂ)) k)) / ((2 : ℕ) * (2 : ℕ)) :=
   periodogramSk_sum_twosided (by norm_num) (by norm_num) one_ne_zero _
+
+/-! ### SpectralAnalyzer sessions: after any re-target every getter works at the rate of the series HELD -/
+section ansess
+open Nitime.C04.Sess Nitime.Generated
+
+/-- the tie: in the CURRENT `analysis/spectral.py` every getter takes its sampling rate from the input it holds
+(`self.input.sampling_rate`), or — `cpsd` — refreshes `self.method['Fs']` from it before handing the dict on; `set_input` is
+`BaseAnalyzer.set_input` and leaves `self.method` alone.  An edit that makes a getter read the rate stored in the method
+dict at construction changes `Generated.AnalyzerFs` and this stops checking. -/
+theorem every_getter_takes_rate_from_held_input :
+    (∀ g, usesHeld (AnalyzerFs.table g) = true) ∧ AnalyzerFs.setInputIsBase = true ∧ AnalyzerFs.ctor ≠ .unknown := by
+  refine ⟨?_, by decide, by decide⟩
+  intro g; cases g <;> decide
+
+/-- **`psd` (and `cpsd`, `periodogram`, `spectrum_multi_taper`, `spectrum_fourier`) after a re-target use the held rate**: for an
+analyzer built on ANY series with ANY method argument (None, a dict with or without `'Fs'`), along EVERY sequence of
+`set_input` (to series of other rates / lengths), `reset` and reads in any order, each result is computed at the sampling
+rate of the series held at that moment — so `Σ PSD · Fs/NFFT` with that series' `Fs` is its power
+(`welch_parseval_*`, `periodogram_parseval_*`, `multitaper_parseval_*`). -/
+theorem psd_after_retarget_uses_held_rate (inp : Inp) (userMethod : Option (Option ℚ)) (evs : List Ev) :
+    Sess.run AnalyzerFs.table (init AnalyzerFs.ctor inp userMethod) evs = Sess.spec inp evs :=
+  session_reads AnalyzerFs.table every_getter_takes_rate_from_held_input.1 evs _ (inv_init _ inp userMethod)
+
+/-- for every table of getters with that discipline and every constructor behaviour -/
+theorem retarget_uses_held_rate_of_discipline (table : Getter → GetterSpec) (hT : ∀ g, usesHeld (table g) = true)
+    (c : CtorFs) (inp : Inp) (userMethod : Option (Option ℚ)) (evs : List Ev) :
+    Sess.run table (init c inp userMethod) evs = Sess.spec inp evs :=
+  session_reads table hT evs _ (inv_init c inp userMethod)
+
+/-- non-vacuity + contrast, the two cooperating edits of seeded change C04-13 (`__init__` stores `'Fs'` always, `psd` reads
+`self.method.get('Fs', …)`): built at 100 Hz, re-targeted to 250 Hz, `psd` answers at 100 Hz — unless `cpsd` was read first,
+which rewrites the entry (why a check that reads `cpsd` before `psd` never sees it) -/
+def c0413 : Getter → GetterSpec
+  | .psd => ⟨.methodEntryOrHeld, false⟩
+  | .cpsd => ⟨.methodEntry, true⟩
+  | _ => ⟨.heldInput, false⟩
+
+theorem stored_rate_counterexample :
+    Sess.run c0413 (init .always ⟨100, 0⟩ (some none)) [.read .psd, .setInput ⟨250, 1⟩, .read .psd] = [(.psd, 100, 0), (.psd, 100, 1)] ∧
+    Sess.spec ⟨100, 0⟩ [.read .psd, .setInput ⟨250, 1⟩, .read .psd] = [(.psd, 100, 0), (.psd, 250, 1)] ∧
+    Sess.run c0413 (init .always ⟨100, 0⟩ (some none)) [.setInput ⟨250, 1⟩, .read .cpsd, .read .psd] = [(.cpsd, 250, 1), (.psd, 250, 1)] ∧
+    usesHeld (c0413 .psd) = false := by
+  refine ⟨?_, ?_, ?_, by decide⟩ <;> simp [Sess.run, Sess.read, Sess.spec, Sess.init, c0413, rateOf, setMemo]
+
+example : Sess.run AnalyzerFs.table (init AnalyzerFs.ctor ⟨100, 0⟩ (some (some 7))) [.read .psd, .setInput ⟨250, 1⟩, .read .psd, .read .cpsd]
+    = [(.psd, 100, 0), (.psd, 250, 1), (.cpsd, 250, 1)] := by
+  rw [psd_after_retarget_uses_held_rate]; rfl
+
+end ansess
 
 end Nitime.C04.Props
